@@ -55,11 +55,8 @@ def _comp_fallback(rep):
     if fb is None:
         rep.ob("O5.2", "SHAPE", fi, False, "if hcc < pcc: return _find_all_subgraph_mappings(...)", "with fewer host components the component-aware strategy equals the exhaustive one")
         return
-    try:
-        bad = [(h, p) for h in range(0, 4) for p in range(1, 4) if bool(eval_expr(fb.test, {"hcc": h, "pcc": p})) != (h < p)]
-        rep.ob("O5.2", "SHAPE", fi, not bad, fb.test, "the component-aware strategy delegates to the exhaustive one exactly when the host has fewer components", {"disagreements": bad[:4]}, node=fb)
-    except Undecided as exc:
-        rep.ob("O5.2", "SHAPE", fi, None, fb.test, str(exc), node=fb)
+    verdict, facts = C06.fallback_condition(fi, fb.test)
+    rep.ob("O5.2", "SHAPE", fi, verdict, fb.test, "the component-aware strategy delegates to the exhaustive one exactly when the host has fewer components", facts, node=fb)
     # every other result of the component-aware strategy is assembled from per-component monomorphisms of the same predicate (subset of ALL)
     adds = [c for c in walk_local(fi.node, into_nested=True) if isinstance(c, ast.Call) and norm(c.func) == "results.append"]
     rep.ob("O5.2", "SHAPE", fi, len(adds) == 1, [norm(a) for a in adds], "combined matches are emitted at one place only (after every pattern component is placed)")
